@@ -82,6 +82,19 @@ CHECKS = {
         "Trusted: the abstract mesh as the expected faces; vlib/sphere.py position equality; xarray/netCDF4 for file I/O.",
         "DESIGN.md section 6, C07",
     ),
+    "C08": (
+        "property-based testing (Hypothesis): generated operation histories, each result compared with the same call on a freshly built grid; module-global snapshots; JIT on/off shard pairs on identical cases",
+        "Exploration: histories of 2-20 public read-only operations (40 lazily computed attributes, compute_face_areas / calculate_total_face_area "
+        "with any rule/order/coordinate kind, to_xarray in three formats, the three geometry exports with drawn arguments, ball / kd trees in every "
+        "configuration with a probe query, chunk, isel, bounding_circle, constant-latitude faces, get_dual; plus near-repeats of earlier calls with one "
+        "argument changed) interleaved over a pool of 1-3 grids built from four kinds of source. Every result is compared at once with the same call "
+        "on a grid freshly built from the same source in the same process (integers exact, floats 1e-12; exports and inventory views by the "
+        "superset rule; equal exceptions count as equal). After every case the module-level dictionaries of uxarray.conventions / constants are "
+        "compared with their import-time snapshot. Shards 2j / 2j+1 run the same cases with JIT on / off and their recorded results are compared.",
+        "Trusted: a freshly built grid in the same process is the property's own reference; values derived on fresh grids are judged by the other "
+        "properties; histories are bounded (<= 20 operations, <= 3 grids).",
+        "DESIGN.md section 6, C08",
+    ),
     "C09": (
         "property-based testing (Hypothesis): set-based reference selection + geometric data matching + differential against a freshly built grid, over histories and thread counts",
         "Exploration: source grids (topology-built or MPAS-like with their own edge tables) x a drawn set of derived quantities materialised first x one "
